@@ -4,8 +4,8 @@
   PgModel/HyperSpec.lean, lemmas: PgProofs/Hyper.lean).
 
   Reading guide. `W` is the `where` filter (a predicate on placeholder tags; `fun _ => true` is
-  "no filter"). A value is a template without selected placeholders. `validG false g d` is exactly
-  what `DNASpec.validate` accepts, `validG true g d` additionally forbids a stray value on a node
+  "no filter"). A value is a template without selected placeholders. `validG g d` is exactly
+  what `DNASpec.validate` accepts, `validG g d` additionally forbids a stray value on a node
   whose children carry the decisions (finding F85). `nfD d` says that `d` is a DNA object (what
   the `DNA` constructor can produce). `wfT t` is what the constructors of `OneOf` / `ManyOf` /
   `geno.Choices` enforce (`OneOf` has one choice, `num_choices >= 1`).
@@ -14,6 +14,7 @@ import PgModel.HyperSpec
 import PgProofs.Hyper
 import PgProofs.HyperEnum
 import PgProofs.HyperDist
+import PgProofs.HyperSound
 namespace Pg.C13
 
 /-! ## Decode -/
@@ -21,9 +22,9 @@ namespace Pg.C13
 /-- For every template, every filter and every DNA that `validate` accepts: decoding succeeds,
 the result has no selected placeholder left, and it has the shape the template prescribes. -/
 theorem C13_decode_total (W : Nat → Bool) (t : Tmpl) (d : DNA)
-    (hwf : wfT t = true) (hv : validG false (dnaSpec W t) d = true) :
+    (hwf : wfT t = true) (hv : validG (dnaSpec W t) d = true) :
     ∃ v, decode W t d = .ok v ∧ detT W v = true ∧ shapeT W t v = true := by
-  obtain ⟨v, hdec, _⟩ := StD_all W false t d hv
+  obtain ⟨v, hdec, _⟩ := StD_all W t d hv
   exact ⟨v, hdec, DsD_all W t hwf d v hdec⟩
 
 /-- The same two facts for *any* successful decode (also of a DNA `validate` would reject). -/
@@ -48,32 +49,27 @@ theorem C13_deterministic (W : Nat → Bool) (t : Tmpl) (d : DNA) (v₁ v₂ : T
 /-! ## Encode after decode -/
 
 /-- The property at full strength: for a distinguishable template, every DNA object accepted by
-`validate` is recovered by encoding its decoded value. -/
-def C13_inverse_Full : Prop :=
-  ∀ (W : Nat → Bool) (t : Tmpl) (d : DNA) (v : Tmpl),
-    wfT t = true → DistT W t → nfD d = true → validG false (dnaSpec W t) d = true →
-    decode W t d = .ok v → encode W t v = .ok d
-
-/-- Proved: the same with the strict validity (no stray value on a node that hands its children
-on). Placeholders may be nested in containers and in candidates of other placeholders to any
-depth; all four `distinct` × `sorted` modes; any filter. -/
-theorem C13_inverse_partial (W : Nat → Bool) (t : Tmpl) (d : DNA) (v : Tmpl)
+`validate` is recovered by encoding its decoded value. Placeholders may be nested in containers
+and in candidates of other placeholders to any depth; all four `distinct` × `sorted` modes; any
+filter. (Until finding F85 was repaired in `validate` this needed an exclusion: a stray value on
+the root of a multi-element space / on a multi-choice node was accepted and lost.) -/
+theorem C13_inverse (W : Nat → Bool) (t : Tmpl) (d : DNA) (v : Tmpl)
     (hwf : wfT t = true) (hdist : DistT W t) (hnf : nfD d = true)
-    (hv : validG true (dnaSpec W t) d = true) (hdec : decode W t d = .ok v) :
+    (hv : validG (dnaSpec W t) d = true) (hdec : decode W t d = .ok v) :
     encode W t v = .ok d := by
-  obtain ⟨v', hdec', henc⟩ := StD_all W true t d hv
+  obtain ⟨v', hdec', henc⟩ := StD_all W t d hv
   rw [hdec] at hdec'
   cases hdec'
-  exact henc rfl hwf hdist hnf
+  exact henc hwf hdist hnf
 
-/-- The same as an existence statement: a strictly valid DNA object of a distinguishable template
+/-- The same as an existence statement: a valid DNA object of a distinguishable template
 decodes, and the decoded value encodes back to it. -/
 theorem C13_inverse_exists (W : Nat → Bool) (t : Tmpl) (d : DNA)
     (hwf : wfT t = true) (hdist : DistT W t) (hnf : nfD d = true)
-    (hv : validG true (dnaSpec W t) d = true) :
+    (hv : validG (dnaSpec W t) d = true) :
     ∃ v, decode W t d = .ok v ∧ encode W t v = .ok d := by
-  obtain ⟨v', hdec', henc⟩ := StD_all W true t d hv
-  exact ⟨v', hdec', henc rfl hwf hdist hnf⟩
+  obtain ⟨v', hdec', henc⟩ := StD_all W t d hv
+  exact ⟨v', hdec', henc hwf hdist hnf⟩
 
 /-! ### Witnesses -/
 
@@ -83,22 +79,17 @@ def noFilter : Nat → Bool := fun _ => true
 def tTwoFloats : Tmpl :=
   .node (.dict ["a", "b"]) [.floatv 1 ⟨0, 0⟩ ⟨1, 0⟩, .floatv 2 ⟨0, 0⟩ ⟨1, 0⟩]
 
-/-- `DNA(5, [0.0, 1.0])`: accepted by `validate`, the value 5 is ignored by decode. -/
+/-- `DNA(5, [0.0, 1.0])`: decode ignores the value 5, encode returns `DNA([0.0, 1.0])`. -/
 def dStray : DNA := .mk (some (.idx 5)) [.mk (some (.flt ⟨0, 0⟩)) [], .mk (some (.flt ⟨1, 0⟩)) []]
 
-/-- The full statement fails on the pinned tree: `validate` and `decode` ignore a stray
-value on the root of a multi-element space, `encode` returns `DNA([0.0, 1.0])` (finding F85,
-replayed on the code on every run). -/
-theorem C13_inverse_counterexample : ¬ C13_inverse_Full := by
-  intro h
-  have hd : decode noFilter tTwoFloats dStray =
-      .ok (.node (.dict ["a", "b"]) [.const (.flt ⟨0, 0⟩), .const (.flt ⟨1, 0⟩)]) := by rfl
-  have h1 := h noFilter tTwoFloats dStray _ (by decide) (by simp [tTwoFloats, DistT, DistL]) (by decide)
-    (by decide) hd
-  have h2 : encode noFilter tTwoFloats (.node (.dict ["a", "b"]) [.const (.flt ⟨0, 0⟩), .const (.flt ⟨1, 0⟩)]) =
-      .ok (.mk none [.mk (some (.flt ⟨0, 0⟩)) [], .mk (some (.flt ⟨1, 0⟩)) []]) := by rfl
-  rw [h2] at h1
-  cases h1
+/-- The former counterexample (finding F85) is a DNA object that decodes but does not encode back;
+`validate` now rejects it, which is why `C13_inverse` needs no exclusion. Its witness is replayed on
+the code on every run (a `fixed` finding). -/
+theorem C13_stray_value_rejected :
+    nfD dStray = true ∧ validG (dnaSpec noFilter tTwoFloats) dStray = false ∧
+    (∃ v, decode noFilter tTwoFloats dStray = .ok v ∧
+      encode noFilter tTwoFloats v = .ok (.mk none [.mk (some (.flt ⟨0, 0⟩)) [], .mk (some (.flt ⟨1, 0⟩)) []])) :=
+  ⟨by decide, by decide, _, rfl, rfl⟩
 
 /-- `pg.oneof([1, 1])`: the later candidate decodes to what the earlier one encodes. -/
 def tAmbiguous : Tmpl := .choice 1 true 1 [.const (.int 1), .const (.int 1)] true false
@@ -107,7 +98,7 @@ def tAmbiguous : Tmpl := .choice 1 true 1 [.const (.int 1), .const (.int 1)] tru
 `DNA(1)` to `1` and encodes `1` to `DNA(0)` (first matching candidate wins). -/
 theorem C13_inverse_needs_distinguishable :
     ¬ (∀ (W : Nat → Bool) (t : Tmpl) (d : DNA) (v : Tmpl),
-        wfT t = true → nfD d = true → validG true (dnaSpec W t) d = true →
+        wfT t = true → nfD d = true → validG (dnaSpec W t) d = true →
         decode W t d = .ok v → encode W t v = .ok d) := by
   intro h
   have hd : decode noFilter tAmbiguous (.mk (some (.idx 1)) []) = .ok (.const (.int 1)) := by rfl
@@ -129,19 +120,19 @@ theorem C13_headDistinct_sufficient (W : Nat → Bool) (t : Tmpl)
 /-- The inverse law with decidable hypotheses only. -/
 theorem C13_inverse_decidable (W : Nat → Bool) (t : Tmpl) (d : DNA) (v : Tmpl)
     (hwf : wfT t = true) (hhd : headDistinct W t = true) (hnf : nfD d = true)
-    (hv : validG true (dnaSpec W t) d = true) (hdec : decode W t d = .ok v) :
+    (hv : validG (dnaSpec W t) d = true) (hdec : decode W t d = .ok v) :
     encode W t v = .ok d :=
-  C13_inverse_partial W t d v hwf (headDistinct_sound W t hwf hhd) hnf hv hdec
+  C13_inverse W t d v hwf (headDistinct_sound W t hwf hhd) hnf hv hdec
 
 /-- Decoding is injective on strictly valid DNA objects of a distinguishable template: different
 DNAs give different values. -/
 theorem C13_decode_injective (W : Nat → Bool) (t : Tmpl) (d₁ d₂ : DNA) (v : Tmpl)
     (hwf : wfT t = true) (hdist : DistT W t)
-    (hnf₁ : nfD d₁ = true) (hv₁ : validG true (dnaSpec W t) d₁ = true) (h₁ : decode W t d₁ = .ok v)
-    (hnf₂ : nfD d₂ = true) (hv₂ : validG true (dnaSpec W t) d₂ = true) (h₂ : decode W t d₂ = .ok v) :
+    (hnf₁ : nfD d₁ = true) (hv₁ : validG (dnaSpec W t) d₁ = true) (h₁ : decode W t d₁ = .ok v)
+    (hnf₂ : nfD d₂ = true) (hv₂ : validG (dnaSpec W t) d₂ = true) (h₂ : decode W t d₂ = .ok v) :
     d₁ = d₂ := by
-  have e₁ := C13_inverse_partial W t d₁ v hwf hdist hnf₁ hv₁ h₁
-  have e₂ := C13_inverse_partial W t d₂ v hwf hdist hnf₂ hv₂ h₂
+  have e₁ := C13_inverse W t d₁ v hwf hdist hnf₁ hv₁ h₁
+  have e₂ := C13_inverse W t d₂ v hwf hdist hnf₂ hv₂ h₂
   rw [e₁] at e₂
   cases e₂
   rfl
@@ -158,11 +149,16 @@ theorem C13_iter_count (W : Nat → Bool) (t : Tmpl) (n : Nat)
 
 /-! ## Encode of arbitrary values (beyond the property text) -/
 
+/-- `pg.List([2, pg.oneof([6, 7])])`; the value `[2.0, 7]` is encoded (2 == 2.0) to `DNA(1)`. -/
+def tNestedSound : Tmpl :=
+  .node .list [.const (.int 2), .choice 1 true 1 [.const (.int 6), .const (.int 7)] true false]
+
+
 /-- `encode t v = ok d → d` is valid — not demanded by the property, and false on the code:
 `Choices.encode` does not check the `distinct` / `sorted` constraints. -/
 def C13_encode_sound_Full : Prop :=
   ∀ (W : Nat → Bool) (t v : Tmpl) (d : DNA),
-    wfT t = true → encode W t v = .ok d → validG false (dnaSpec W t) d = true
+    wfT t = true → encode W t v = .ok d → validG (dnaSpec W t) d = true
 
 /-- `pg.manyof(2, [1, 2, 3])` (distinct) encodes `[1, 1]` to `DNA([0, 0])`, which `validate` rejects. -/
 theorem C13_encode_sound_counterexample : ¬ C13_encode_sound_Full := by
@@ -173,6 +169,21 @@ theorem C13_encode_sound_counterexample : ¬ C13_encode_sound_Full := by
     (.mk none [.mk (some (.idx 0)) [], .mk (some (.idx 0)) []]) (by decide) (by rfl)
   revert this
   decide
+
+/-- The positive part (every template, filter and value, no distinguishability needed): whatever
+`encode` returns is a DNA object, and **if it is valid** it decodes to a value equal (Python `==`:
+structural, `1 == 1.0` at the leaves) to the encoded one. The excluded case is exactly the one of the
+counterexample above (`validG … d = false`, decidable). -/
+theorem C13_encode_sound_partial (W : Nat → Bool) (t v : Tmpl) (d : DNA)
+    (henc : encode W t v = .ok d) :
+    nfD d = true ∧
+    (validG (dnaSpec W t) d = true → ∃ v', decode W t d = .ok v' ∧ eqvT v' v = true) :=
+  EsD_all W t v d henc
+
+example : encode noFilter tTwoFloats (.node (.dict ["a", "b"]) [.const (.flt ⟨1, 1⟩), .const (.int 1)]) =
+    .error .value := by rfl      -- the int 1 is not a float: rejected, as `Float.encode` does
+example : ∃ d, encode noFilter tNestedSound (.node .list [.const (.flt ⟨2, 0⟩), .const (.int 7)]) = .ok d ∧
+    validG (dnaSpec noFilter tNestedSound) d = true := ⟨_, rfl, by decide⟩
 
 /-! ## Non-vacuity -/
 
@@ -195,12 +206,12 @@ def dNested : DNA :=
 example : wfT tNested = true := by decide
 example : headDistinct noFilter tNested = true := by decide
 example : nfD dNested = true := by decide
-example : validG true (dnaSpec noFilter tNested) dNested = true := by decide
+example : validG (dnaSpec noFilter tNested) dNested = true := by decide
 example : decode noFilter tNested dNested =
     .ok (.node (.dict ["x", "y"]) [.node .list [.const (.int 5), .const (.int 7)], .const (.flt ⟨5, 1⟩)]) := by rfl
 /-- with a filter that selects the outer choice and `y` only (the inner placeholders stay) -/
 example : headDistinct (fun tag => tag == 1 || tag == 5) tNested = true := by decide
-example : validG true (dnaSpec (fun tag => tag == 1 || tag == 5) tNested)
+example : validG (dnaSpec (fun tag => tag == 1 || tag == 5) tNested)
     (.mk none [.mk (some (.idx 0)) [], .mk (some (.flt ⟨5, 1⟩)) []]) = true := by decide
 example : sizeG (dnaSpec noFilter (.choice 1 false 2 [.const (.int 1), .const (.int 2), .const (.int 3)] true true)) = some 3 := by
   decide
